@@ -4,6 +4,8 @@ import json, os, subprocess
 ROOT = os.path.dirname(os.path.dirname(os.path.abspath(__file__)))
 TECH = "symbolic evaluation of the real Python source (own AST->z3 evaluator py2smt) + SMT (z3 5.1; cvc5/z3-4.8 cross-check in thorough tier), counterexamples replayed on the real code"
 CLAIMED = {
+    "C06": ("2. C06", "Duplicate-packet list as one inductive step from an arbitrary valid ring (length/fill/SN symbolic); every receive handler that forwards (TSB, GBC simple+CBF, GAC, GUC, LS request, LS reply) on a symbolic frame against a symbolic table: own-address and duplicate packets produce no effect, at most one indication and one (immediate or buffered) copy, copy = received packet except RHL-1 (DE PV only refreshed by a strictly newer neighbour PV), nothing at RHL 0/1; CBF buffer insert/cancel/expiry from an arbitrary buffer state; duplicate overheard during contention drops the buffered copy.",
+            "Received packets are assumed well-formed in their reserved bits (forwarders normalise them); table answers follow a contract (arbitrary entries, may report duplicate) and counterexamples are replayed on the real Router with a scripted table giving the model's answers; flood termination is the hand-written composition of RHL decrease + duplicate list."),
     "C08": ("2. C08", "Wrap-around timestamp order over all pairs of 32-bit values (irreflexive, antisymmetric, total, agreement with real time, derived operators, transitivity in a window); update_position_vector, refresh_table (arbitrary clock, incl. timestamps ahead of the truncated clock), every new_*_packet handler from an arbitrary table pre-state (source known/unknown, arbitrary entry, one other entry) and get_neighbours are evaluated symbolically against a serial-arithmetic oracle: newest PV stored, neighbour-flag rules per packet type, other entries untouched.",
             "One-step VCs from an arbitrary pre-state (induction over packets is the hand-written composition); GN addresses are identified by their MID as GNAddress.__eq__ does; duplicate-packet list starts empty; own-address exclusion is checked in C06."),
     "C02": ("2. C02", "Every header codec (basic, common, traffic class, GN address, long/short PV, GBC/TSB/GUC/LS extended, BTP-A/B) is compared with an independently typed clause-9 layout table: encoders over all representable field values, decoders over all byte strings of the header length with defined enum values; every source operation (beacon, SHB, GBC/GAC x3 shapes, GUC, LS request) is evaluated with symbolic request/ego PV/MIB hop limit/sequence number and each emitted packet must equal basic|common|extended|payload octet for octet.",
